@@ -3,9 +3,15 @@ C17 line protocol.
 
   verdicts <N> <uses> <owns>                → as C07 (`wf=1 <U/Q/X string> …`)
   adduse <N> <uses> <owns> <x> <y>          → verdict string of `addUse g x y`
-  iso <N> <uses> <owns> <uses'> <owns'> <f> → `hyp=<0|1> same=<0|1>`: are the hypotheses of
-        `results_perm_invariant` met by the renumbering f (comma separated images of 0..N-1),
-        and do all verdicts correspond
+  adduses <N> <uses> <owns> <edges>          → verdict string of `addUses g edges`
+  iso <N> <uses> <owns> <uses'> <owns'> <f> <finv> → `hyp=<0|1> same=<0|1>`: are the hypotheses of
+        `results_perm_invariant` met by the renumbering f with inverse finv (comma separated
+        images of 0..N-1; `isoHyp`, proved sound), and do all verdicts correspond
+  embed <N> <uses> <owns> <N'> <uses'> <owns'> <f> <x> <y> → `hyp= mono= edge= target=`: hypotheses of
+        `used_mono_embed` (`embedHyp`), Used g ⊆ Used g' along f, is f x → f y a use edge of g',
+        is f y Used in g'
+  build <events…>  (u<used>.<by> | s<obj>.<owner>) → the graph built by the builder model:
+        `<N> <uses> <owns> <objects in creation order> <verdicts>`
   merge <k> then per variant: <allowed 0|1> <nUsed> keys… <nUnused> keys…
         key = hex(pkg)/hex(base)/line/hex(name)
         → reported keys in emission order, space separated, or `-`
@@ -13,6 +19,7 @@ C17 line protocol.
 import Verif.Common.Proto
 import Verif.C07.Driver
 import Verif.C17.Model
+import Verif.C17.Build
 namespace Verif.C17
 open Verif.Proto Verif.C07
 
@@ -50,18 +57,16 @@ def parseVariants : Nat → List String → Option (List Variant)
     | [] => none
   | _ + 1, _ => none
 
-/-- executable form of the hypotheses of `results_perm_invariant` for `f` given as a table -/
-def isoHyp (g g' : Graph) (f : List Nat) : Bool :=
-  let n := g.N
-  let fa := fun a => f.getD a n
-  g'.N == n && f.length == n && fa 0 == 0 &&
-  (List.range n).all (fun a => fa a < n) &&
-  (List.range n).all (fun b => (f.filter (· == b)).length == 1) &&
-  (List.range n).all (fun a =>
-    let ua := g.usesOf a; let ua' := g'.usesOf (fa a)
-    let oa := g.ownsOf a; let oa' := g'.ownsOf (fa a)
-    ua.all (fun b => ua'.contains (fa b)) && ua'.all (fun c => (ua.map fa).contains c) &&
-    oa.all (fun b => oa'.contains (fa b)) && oa'.all (fun c => (oa.map fa).contains c))
+def parseNats (s : String) : Option (List Nat) := (s.splitOn ",").mapM (·.toNat?)
+
+/-- `u<used>.<by>` = `g.use(used, by)`, `s<obj>.<owner>` = `g.see(obj, owner)`; 0 = nil -/
+def parseEvent (t : String) : Option Event :=
+  let body := (t.drop 1).toString
+  match body.splitOn "." with
+  | [a, b] => do
+    let a ← a.toNat?; let b ← b.toNat?
+    if t.startsWith "u" then some (.use a b) else if t.startsWith "s" then some (.see a b) else none
+  | _ => none
 
 def stepLine (line : String) : String :=
   match tokens line with
@@ -71,17 +76,45 @@ def stepLine (line : String) : String :=
     | some g, some x, some y =>
       if !g.wf || !(y < g.N) then "wf=0" else showVerdicts (addUse g x y)
     | _, _, _ => "bad-op"
-  | ["iso", n, u, o, u', o', f] =>
-    match parseGraph n u o, parseGraph n u' o', (f.splitOn ",").mapM (·.toNat?) with
-    | some g, some g', some f =>
+  | ["iso", n, u, o, u', o', f, fi] =>
+    match parseGraph n u o, parseGraph n u' o', parseNats f, parseNats fi with
+    | some g, some g', some f, some fi =>
       if !g.wf || !g'.wf then "wf=0" else
-      let hyp := isoHyp g g' f
+      let hyp := isoHyp g g' f fi
       let v := g.verdicts
       let v' := g'.verdicts
       let same := ((List.range g.N).filter (· ≠ 0)).all fun a =>
         v.getD (a - 1) .used == v'.getD (f.getD a 0 - 1) .used
       s!"hyp={showBool hyp} same={showBool same}"
-    | _, _, _ => "bad-op"
+    | _, _, _, _ => "bad-op"
+  | ["embed", n, u, o, n', u', o', f, x, y] =>
+    match parseGraph n u o, parseGraph n' u' o', parseNats f, x.toNat?, y.toNat? with
+    | some g, some g', some f, some x, some y =>
+      if !g.wf || !g'.wf then "wf=0" else
+      let hyp := embedHyp g g' f
+      let fa := fun a => f.getD a 0
+      let r := g.results
+      let r' := g'.results
+      let mono := r.used.all fun a => r'.used.contains (fa a)
+      let edge := (g'.usesOf (fa x)).contains (fa y)
+      let target := r'.used.contains (fa y)
+      s!"hyp={showBool hyp} mono={showBool mono} edge={showBool edge} target={showBool target}"
+    | _, _, _, _, _ => "bad-op"
+  | ["adduses", n, u, o, es] =>
+    match parseGraph n u o, parseEdges es with
+    | some g, some es =>
+      if !g.wf || !(es.all fun e => decide (e.2 < g.N)) then "wf=0" else showVerdicts (addUses g es)
+    | _, _ => "bad-op"
+  | "build" :: evs =>
+    match evs.mapM parseEvent with
+    | some es =>
+      let s := build Cfg.all es
+      let g := s.graph
+      let us := (List.range g.N).flatMap fun a => (g.usesOf a).map fun b => s!"{a}>{b}"
+      let os := (List.range g.N).flatMap fun a => (g.ownsOf a).map fun b => s!"{a}>{b}"
+      let sh := fun (l : List String) => if l.isEmpty then "-" else ",".intercalate l
+      s!"{g.N} {sh us} {sh os} {sh (s.objs.map toString)} {showVerdicts g}"
+    | none => "bad-op"
   | "merge" :: k :: rest =>
     match k.toNat? with
     | some k =>
